@@ -38,6 +38,7 @@ def with_path_tokens(argv):
 def _type_record(tp):
     """pydra field type -> (type word | repr, optional, multi)"""
     from fileformats.generic import FsObject, File, Directory
+    from fileformats.image import Png
     from pydra.utils.typing import MultiInputObj
     optional = multi = False
     if ty.get_origin(tp) in (ty.Union, types.UnionType):
@@ -49,7 +50,7 @@ def _type_record(tp):
         multi = True
         (tp,) = ty.get_args(tp)
     words = {FsObject: "fsobject", File: "file", Directory: "directory", int: "int", float: "float", str: "str",
-             bool: "bool"}
+             bool: "bool", Png: "png"}
     return words.get(tp, repr(tp)), optional, multi
 
 
@@ -104,9 +105,11 @@ def assignment(recs, mode, root):
         n, t = r["name"], r["type"]
         if r["output"]:
             if mode == "all":
-                v = str(Path(root) / "c25out" / f"given_{n}.dat")
+                v = str(Path(root) / "c25out" / (f"given_{n}" + (RT.EXTENSIONS.get(t) or ".dat")))
                 kwargs[n] = v
                 refvals.append(v)
+            elif r["optional"]:
+                refvals.append(None)        # an optional output that is not asked for
             else:
                 refvals.append(OUT_MARK + r["path_template"])
             continue
